@@ -132,8 +132,8 @@ pub fn whitespace_string(rng: &mut Rng, min: usize, max: usize) -> String {
     for _ in 0..n {
         let piece = match mode {
             0..=4 => *rng.pick(&[" ", "\t", "\n", "\r", "  ", "\n  "]),
-            5 => *rng.pick(&["\u{a0}", "\u{85}", "\u{2003}", "\u{2028}", "\u{3000}", "\u{1680}", "\u{feff}", "\u{200b}"]),
-            6 => *rng.pick(&[" ", "\u{a0}", "\n", "\u{2003}"]),
+            5 => *rng.pick(&["\u{a0}", "\u{85}", "\u{2003}", "\u{2028}", "\u{3000}", "\u{1680}", "\u{feff}", "\u{200b}", "\u{c}", "\u{b}", "\u{1f}", "\u{1c}"]),
+            6 => *rng.pick(&[" ", "\u{a0}", "\n", "\u{2003}", "\u{c}", "\u{b}"]),
             7 => *rng.pick(&[" ", "a", "\n", "b"]),
             _ => *rng.pick(&["a", "b", "x"]),
         };
